@@ -2,8 +2,10 @@ SPECIFICATION Spec
 CONSTANTS
   PIDS = {0, 32}
   CCMOD = 4
+  CCS = {0, 1, 2, 3}
   PAYLOADS <- MCPayloads
   PATPIDS <- MCPATPIDS
   MaxSteps = 3
 INVARIANTS QueuesAreRuns OutIsRun LostIsHeadlessOrIncomplete
+VIEW View
 CHECK_DEADLOCK FALSE
